@@ -528,8 +528,41 @@ func ruleSchema(r *Run) {
 
 // attrNamesOf: names of the XML attributes the stored value comes from.
 func attrNamesOf(m *readerModel, f *ssa.Function, s fieldStore) []string {
+	return attrNamesFrom(m, f, s.Val, s.Block, 0)
+}
+
+// attrNamesFrom: the attribute names whose looked-up values may flow into val (evaluated in
+// block blk of f).  A module helper that receives the attribute list and returns looked-up values
+// (possibly several: `typ, id := refAttrs(t.Attr)`) is followed into its return statements.
+func attrNamesFrom(m *readerModel, f *ssa.Function, val ssa.Value, blk *ssa.BasicBlock, hops int) []string {
+	s := struct {
+		Val   ssa.Value
+		Block *ssa.BasicBlock
+	}{val, blk}
 	var names []string
 	seen := map[ssa.Value]bool{}
+	viaHelper := func(c *ssa.Call, idx int) {
+		cal := staticCallee(c)
+		if cal == nil || hops > 2 || len(cal.Blocks) == 0 || cal.Pkg == nil || !strings.HasPrefix(cal.Pkg.Pkg.Path(), modPath) {
+			return
+		}
+		takesAttrs := false
+		for _, p := range cal.Params {
+			if sl, ok := p.Type().Underlying().(*types.Slice); ok && typeIs(sl.Elem(), xmlPkg, "Attr") {
+				takesAttrs = true
+			}
+		}
+		if !takesAttrs {
+			return
+		}
+		for _, b := range cal.Blocks {
+			for _, in := range b.Instrs {
+				if ret, ok := in.(*ssa.Return); ok && idx < len(ret.Results) {
+					names = append(names, attrNamesFrom(m, cal, ret.Results[idx], b, hops+1)...)
+				}
+			}
+		}
+	}
 	var walk func(v ssa.Value, depth int)
 	walk = func(v ssa.Value, depth int) {
 		if v == nil || seen[v] || depth > 8 {
@@ -545,6 +578,12 @@ func attrNamesOf(m *readerModel, f *ssa.Function, s fieldStore) []string {
 						names = append(names, cs)
 					}
 				}
+			} else if cal != nil {
+				viaHelper(x, 0)
+			}
+		case *ssa.Extract:
+			if c, ok := x.Tuple.(*ssa.Call); ok {
+				viaHelper(c, x.Index)
 			}
 		case *ssa.Phi:
 			for _, e := range x.Edges {
